@@ -88,6 +88,9 @@ func TestVerifC19(t *testing.T) {
 	s := crash.NewSweep(r, "C19")
 	r.Rule("for each entry point: 2-5 valid instances x every single application of the enum operator alphabet (delete, rename, 14 replacement values incl. null/extremes/{\"@base\":5}, wrap/unwrap, add undefined member, array reorder/dup/append, string edits + hostile strings, number perturbations) at every JSON position, plus truncation at every token boundary, duplicated members, JOSE serialisation variants and raw compact oddities; thorough: every pair of single mutations (second from the alphabet without the hostile strings). A case is distinct by (entry point, instance, operator@path); the call is made the way the node makes it and judged by recover() + a 10 s per-call deadline (reported only if reproduced 3x); rejected input must leave the store unchanged where there is one")
 	r.Assume("go runtime, encoding/json, protobuf and the jwx / go-did libraries are exercised, not modelled; resource exhaustion that terminates is outside the statement")
+	// configuration-only crashes noticed while reading the code: configuration is not untrusted input in the statement's sense
+	r.Observation("config-only: goldenhammer.interval=0 makes time.NewTicker panic at start (operator configuration, not judged)", "golden_hammer module; seen by reading, not executed")
+	r.Observation("config-only: network.grpcaddr=\"\" leaves the v2 protocol without connection list, the diagnostics broadcast dereferences nil after the first interval (operator configuration, not judged)", "network/transport/v2; seen by reading, not executed")
 	only := os.Getenv("VERIF_C19_ONLY")
 	sort.SliceStable(entries, func(i, j int) bool { return entries[i].name < entries[j].name })
 	for _, e := range entries {
